@@ -565,6 +565,12 @@ func (h *httpServerHandler) handleGet(ctx context.Context, w http.ResponseWriter
 		return
 	}
 
+	// A listening stream belongs to a session; without session support there is nothing to attach it to
+	if !h.enableSession || h.sessionManager == nil {
+		http.Error(w, "GET method requires session support", http.StatusMethodNotAllowed)
+		return
+	}
+
 	// Check if there's a session ID
 	sessionID := r.Header.Get(httputil.SessionIDHeader)
 	if sessionID == "" {
